@@ -136,7 +136,10 @@ class Harness:
             # an item of the right kind whose data is a plain nested list (no shape): whatever
             # exception that provokes, the block must stay as it was
             rows = [[float(t + r), 1.0, 2.0] for r in range(NF)]
-            return EMGTrack(text, [r[0] for r in rows]) if self.kind == "EMG" else MarkerTrack(text, rows)
+            try:
+                return EMGTrack(text, [r[0] for r in rows]) if self.kind == "EMG" else MarkerTrack(text, rows)
+            except Exception:  # noqa: BLE001
+                return None        # (a library that refuses such data in the item's own constructor: another non-item)
         if not good and t % 5 == 1 and self.kind in ("EMG", "Data3D", "Force"):
             # an item of ANOTHER block family with exactly the right number of frames
             a = np.arange(NF * 3, dtype="<f4").reshape(NF, 3)
@@ -853,7 +856,15 @@ def run_tour(kind, labs, seed, share_ctor=False):
             break  # the real run left the model's path (an earlier construct failed): stop this tour
         if h.nf == 0 and c["op"] in ("encode", "decode", "aux") and kind in ("EMG", "Data3D", "Force", "FPData"):
             continue  # tracks without frames cannot be encoded; such histories only exercise the editing API
-        ev = h.run(c)
+        try:
+            ev = h.run(c)
+        except common.Machinery:
+            raise
+        except Exception as x:  # noqa: BLE001
+            # the library raised while the harness was building VALID items or blocks for this call
+            # (outside the call that is judged): a verdict, not a machinery failure
+            steps.append(dict(o=dict(op="setup_failed", i=c["i"], share_ok=True, exc=type(x).__name__), r=dict(ok=False, exc=[type(x).__name__], val=[]), w=h.world()))
+            break
         done.append(c)              # (also when it was skipped: the solo replay must skip it the same way)
         if ev is not None:          # (a call that makes no sense on this concrete block is skipped)
             steps.append(ev)
@@ -983,7 +994,7 @@ def check(prop, tier, seed, replay=None):
         run.sample(dict(kind=t["kind"], labels=t["meta"]["labels"][:6], first=[dict(o=e["o"], r=e["r"]) for e in t["steps"][:3]]))
     others = {}
     for tid, cl in verdict.items():
-        mine = [c for c in cl if c[1].startswith(prop + ":")]
+        mine = [c for c in cl if c[1].startswith((prop + ":", "ANY:"))]
         for c in cl:
             if not c[1].startswith(prop + ":"):
                 others[c[1]] = others.get(c[1], 0) + 1
